@@ -122,6 +122,9 @@ pub struct Spell {
     /// `l` written after the entry point functions, `L` after the Pipeline blocks (2). Every later entry is at least
     /// as late (request order = source order); such a declaration is not mentioned in any function.
     pub late: u32,
+    /// `M<n>` (not a mere spelling; cbuffer only) the first member carries an annotation: 0 `: register(b0)`,
+    /// 1 `: TEXCOORD` -- both rejected (`register() is not allowed here` / `semantic is not allowed here`)
+    pub member_ann: Option<u32>,
 }
 
 /// the compile() options next to the target: `<target>[+<B|L|S|D>...]`
@@ -134,11 +137,14 @@ pub struct Cfg {
     pub layout: bool,
     pub srcinfo: bool,
     pub defines: bool,
+    /// `Q` in no-pipeline mode a pipeline name is given as well (`pipeline_name(Some("Q_none"))`, a name no pipeline
+    /// has): no-pipeline mode builds the one unselected module whatever the name says
+    pub np_name: bool,
 }
 
 impl Cfg {
     pub fn plain(tgt: Tgt) -> Cfg {
-        Cfg { tgt, ba: false, layout: false, srcinfo: false, defines: false }
+        Cfg { tgt, ba: false, layout: false, srcinfo: false, defines: false, np_name: false }
     }
     /// the parameter set the property speaks of, `None` = buffer addresses requested on a target without them
     pub fn eff(&self) -> Option<Tgt> {
@@ -150,7 +156,7 @@ impl Cfg {
     }
     pub fn show(&self) -> String {
         let mut s = self.tgt.name().to_string();
-        for (on, c) in [(self.ba, 'B'), (self.layout, 'L'), (self.srcinfo, 'S'), (self.defines, 'D')] {
+        for (on, c) in [(self.ba, 'B'), (self.layout, 'L'), (self.srcinfo, 'S'), (self.defines, 'D'), (self.np_name, 'Q')] {
             if on {
                 s.push('+');
                 s.push(c);
@@ -167,6 +173,7 @@ impl Cfg {
                 "L" => c.layout = true,
                 "S" => c.srcinfo = true,
                 "D" => c.defines = true,
+                "Q" => c.np_name = true,
                 _ => return None,
             }
         }
@@ -206,6 +213,9 @@ pub struct Pipe {
     pub uses: Vec<usize>,
     /// the pipeline is built from the entry points of this earlier pipeline of the same kind
     pub share: Option<usize>,
+    /// how `DefaultBindGroup = d` is written (letters after the kind): `f` as the first property of the block,
+    /// `x` as `d + 0`, `h` in hexadecimal, `k` through a named constant `static const uint K_<name> = d;`
+    pub dspell: String,
 }
 
 #[derive(Clone, Debug, PartialEq)]
@@ -275,6 +285,7 @@ fn show_res(r: &Res) -> String {
         if r.sp.other_form > 0 { flags.push(format!("F{}", r.sp.other_form)); }
     }
     if let Some(n) = r.sp.len_expr { flags.push(format!("x{}", n)); }
+    if let Some(n) = r.sp.member_ann { flags.push(format!("M{}", n)); }
     match r.sp.late { 0 => {} 1 => flags.push("l".into()), _ => flags.push("L".into()) }
     format!("{}={}~{}", r.name, decl_text, flags.join("."))
 }
@@ -325,6 +336,8 @@ fn parse_res(s: &str) -> Option<Res> {
             "T" => r.sp.typedefd = true,
             "U" => r.sp.typedef_arr = true,
             "N" => r.sp.nested_ns = true,
+            "M0" => r.sp.member_ann = Some(0),
+            "M1" => r.sp.member_ann = Some(1),
             "l" => r.sp.late = 1,
             "L" => r.sp.late = 2,
             f if f.starts_with('x') => r.sp.len_expr = Some(f[1..].parse().ok().filter(|n| *n < 3)?),
@@ -436,6 +449,9 @@ pub fn normalise(res: &mut [Res]) {
         if !matches!(&r.decl, Decl::Other) {
             r.sp.other_form = 0;
         }
+        if !matches!(&r.decl, Decl::CBuffer(_)) {
+            r.sp.member_ann = None;
+        }
         if !r.ns {
             r.sp.nested_ns = false;
         }
@@ -459,10 +475,11 @@ pub fn normalise(res: &mut [Res]) {
 fn show_pipe(p: &Pipe) -> String {
     let uses: Vec<String> = p.uses.iter().map(|u| u.to_string()).collect();
     format!(
-        "{}:{}:{}{}:{}",
+        "{}:{}:{}{}{}:{}",
         p.name,
         p.dflt.map(|d| d.to_string()).unwrap_or_else(|| "-".into()),
         if p.graphics { "g" } else { "c" },
+        p.dspell,
         p.share.map(|k| format!("={}", k)).unwrap_or_default(),
         uses.join(".")
     )
@@ -477,10 +494,14 @@ fn parse_pipe(s: &str) -> Option<Pipe> {
         Some((k, j)) => (k, Some(j.parse::<usize>().ok()?)),
         None => (f[2], None),
     };
+    if !kind[kind.len().min(1)..].chars().all(|c| "fxhk".contains(c)) {
+        return None;
+    }
     Some(Pipe {
         name: f[0].to_string(),
         dflt: if f[1] == "-" { None } else { Some(f[1].parse().ok()?) },
-        graphics: match kind { "c" => false, "g" => true, _ => return None },
+        graphics: match kind.chars().next() { Some('c') => false, Some('g') => true, _ => return None },
+        dspell: kind[1..].to_string(),
         share,
         uses: f[3].split('.').filter(|u| !u.is_empty()).map(|u| u.parse().ok()).collect::<Option<Vec<usize>>>()?,
     })
@@ -696,8 +717,9 @@ pub fn source(p: &Prog) -> String {
             Decl::CBuffer(_) => {
                 // one to three members: members are not root definitions and take nothing
                 let extra = ["", " float2 pad_a[2];", " float2 pad_a[2]; uint pad_b;"][(r.name.bytes().last().unwrap_or(0) % 3) as usize];
+                let member = match r.sp.member_ann { Some(0) => " : register(b0)", Some(_) => " : TEXCOORD", None => "" };
                 line.push_str(
-                    &format!("{}cbuffer {}{} {{ float4 {}_v;{} }}", attrs_text(r), r.name, anns_text(r, 'b'), r.name, extra)
+                    &format!("{}cbuffer {}{} {{ float4 {}_v{};{} }}", attrs_text(r), r.name, anns_text(r, 'b'), r.name, member, extra)
                         .replace("pad_", &format!("{}_pad_", r.name)),
                 );
             }
@@ -816,15 +838,32 @@ pub fn source(p: &Prog) -> String {
     }
     s.push_str(&late1);
     for (k, pipe) in p.pipes.iter().enumerate() {
+        let dflt_line = match pipe.dflt {
+            None => String::new(),
+            Some(d) => {
+                let text = if pipe.dspell.contains('k') {
+                    s.push_str(&format!("static const uint K_{} = {};\n", pipe.name, d));
+                    format!("K_{}", pipe.name)
+                } else if pipe.dspell.contains('h') {
+                    format!("0x{:x}", d)
+                } else {
+                    d.to_string()
+                };
+                format!("    DefaultBindGroup = {}{};\n", text, if pipe.dspell.contains('x') { " + 0" } else { "" })
+            }
+        };
         s.push_str(&format!("Pipeline {}\n{{\n", pipe.name));
+        if pipe.dspell.contains('f') {
+            s.push_str(&dflt_line);
+        }
         let k = owner(k);
         if pipe.graphics {
             s.push_str(&format!("    VertexShader = vs{};\n    PixelShader = ps{};\n", k, k));
         } else {
             s.push_str(&format!("    ComputeShader = cs{};\n", k));
         }
-        if let Some(d) = pipe.dflt {
-            s.push_str(&format!("    DefaultBindGroup = {};\n", d));
+        if !pipe.dspell.contains('f') {
+            s.push_str(&dflt_line);
         }
         s.push_str("}\n");
     }
@@ -867,7 +906,12 @@ pub fn compile(src: &str, cfg: Cfg, mode: &Mode) -> Outcome {
         match mode {
             Mode::All => {}
             Mode::Named(n) => args = args.pipeline_name(Some(n.as_str())),
-            Mode::NoPipeline => args = args.no_pipeline_mode(),
+            Mode::NoPipeline => {
+                args = args.no_pipeline_mode();
+                if cfg.np_name {
+                    args = args.pipeline_name(Some("Q_none"));
+                }
+            }
         }
         match rssl::compile(args) {
             Ok(ps) => Ok(ps
@@ -1056,6 +1100,7 @@ pub fn invalid_annotation(res: &[Res]) -> bool {
         let attr_index = decl_attrs(&res[head_of(res, i)]).iter().any(|a| matches!(a, AttrText::VkBinding(..)));
         // the register class is looked up on the declaration's base type: an array typedef has none
         (r.sp.typedef_arr && !anns.is_empty())
+            || r.sp.member_ann.is_some()
             || (!r.joined && r.bad_attr.is_some() && !matches!(&r.decl, Decl::Other))
             || (matches!(&r.decl, Decl::CBuffer(_)) && r.bindless)
             || (matches!(&r.decl, Decl::StaticObject { .. }) && (r.extern_kw || r.static_ss))
@@ -1514,7 +1559,12 @@ fn gen_res(rng: &mut Rng, i: usize, sofar: &[Res]) -> Res {
             r.extern_kw = rng.chance(1, 60);
             r.static_ss = *kind == "SamplerState" && rng.chance(1, 20);
         }
-        Decl::CBuffer(_) => r.bindless = rng.chance(1, 60),
+        Decl::CBuffer(_) => {
+            r.bindless = rng.chance(1, 60);
+            if rng.chance(1, 40) {
+                r.sp.member_ann = Some(rng.below(2) as u32);
+            }
+        }
         _ => {}
     }
     if !matches!(&r.decl, Decl::Other) && rng.chance(1, 90) {
@@ -1537,7 +1587,28 @@ fn gen_pipes(rng: &mut Rng, nres: usize, min_pipes: usize) -> Vec<Pipe> {
             _ => Some((first + k as u32) % 4),
         };
         let uses: Vec<usize> = (0..nres).filter(|_| rng.chance(1, 2)).collect();
-        let mut pipe = Pipe { name: format!("P{}", k), dflt, graphics: rng.chance(1, 3), uses, share: None };
+        // names that are prefixes / extensions / other-case spellings of each other: a lookup by name must compare whole names
+        let mut name = match rng.below(8) {
+            0 => "P".to_string(),
+            1 => format!("P{}0", k),
+            2 => format!("p{}", k),
+            3 => format!("P0{}", k),
+            4 => format!("P{}_x", k),
+            _ => format!("P{}", k),
+        };
+        if pipes.iter().any(|q: &Pipe| q.name == name) {
+            name = format!("P{}", k);
+        }
+        if pipes.iter().any(|q: &Pipe| q.name == name) {
+            name = format!("Q{}", k);
+        }
+        let mut dspell = String::new();
+        for c in ['f', 'x', 'h', 'k'] {
+            if rng.chance(1, 6) {
+                dspell.push(c);
+            }
+        }
+        let mut pipe = Pipe { name, dflt, graphics: rng.chance(1, 3), uses, share: None, dspell };
         // now and then the same entry points as an earlier pipeline (with, mostly, another default group)
         if k > 0 && rng.chance(1, 4) {
             let j = rng.below(k as u64) as usize;
@@ -1641,8 +1712,8 @@ pub fn matrix_progs(rng: &mut Rng) -> Vec<Prog> {
             normalise(&mut res);
             let n = res.len();
             let pipes = vec![
-                Pipe { name: "P0".into(), dflt: Some(d0), graphics: false, uses: (0..n).collect(), share: None },
-                Pipe { name: "P1".into(), dflt: if d1 == 0 && rng.chance(1, 2) { None } else { Some(d1) }, graphics: rng.chance(1, 3), uses: (0..n).filter(|_| rng.chance(1, 2)).collect(), share: None },
+                Pipe { name: "P0".into(), dflt: Some(d0), graphics: false, uses: (0..n).collect(), share: None, dspell: String::new() },
+                Pipe { name: "P1".into(), dflt: if d1 == 0 && rng.chance(1, 2) { None } else { Some(d1) }, graphics: rng.chance(1, 3), uses: (0..n).filter(|_| rng.chance(1, 2)).collect(), share: None, dspell: String::new() },
             ];
             v.push(Prog { res, pipes });
         }
@@ -1709,7 +1780,7 @@ pub fn spelling_progs(rng: &mut Rng, all_kinds: bool) -> Vec<Prog> {
                     after.sp.late = form - 6;
                 }
                 9 => {
-                    mid.sp = Spell { const_kw: true, typedefd: true, typedef_arr: true, len_expr: Some(2), other_form: 0, nested_ns: true, late: 0 };
+                    mid.sp = Spell { const_kw: true, typedefd: true, typedef_arr: true, len_expr: Some(2), other_form: 0, nested_ns: true, late: 0, member_ann: None };
                     mid.ns = true;
                     mid.extern_kw = true;
                 }
@@ -1736,8 +1807,8 @@ pub fn spelling_progs(rng: &mut Rng, all_kinds: bool) -> Vec<Prog> {
             let n = res.len();
             let d0 = rng.below(3) as u32;
             let pipes = vec![
-                Pipe { name: "P0".into(), dflt: Some(d0), graphics: false, uses: (0..n).collect(), share: None },
-                Pipe { name: "P1".into(), dflt: Some((d0 + 1) % 3), graphics: rng.chance(1, 3), uses: (0..n).filter(|_| rng.chance(1, 2)).collect(), share: None },
+                Pipe { name: "P0".into(), dflt: Some(d0), graphics: false, uses: (0..n).collect(), share: None, dspell: String::new() },
+                Pipe { name: "P1".into(), dflt: Some((d0 + 1) % 3), graphics: rng.chance(1, 3), uses: (0..n).filter(|_| rng.chance(1, 2)).collect(), share: None, dspell: String::new() },
             ];
             v.push(Prog { res, pipes });
         }
@@ -1818,9 +1889,10 @@ pub fn run_prog(p: &Prog, rng: &mut Rng, out: &mut Out, hist: &mut Hist) {
             tgt.layout = rng.chance(1, 3);
             tgt.srcinfo = rng.chance(1, 3);
             tgt.defines = rng.chance(1, 3);
+            tgt.np_name = rng.chance(1, 3);
         }
         hist.add(&format!("e2e:cfg:{}", t.name()));
-        for (on, name) in [(tgt.ba, "buffer-address-forced"), (tgt.layout, "validate-layout"), (tgt.srcinfo, "source-info"), (tgt.defines, "defines")] {
+        for (on, name) in [(tgt.ba, "buffer-address-forced"), (tgt.layout, "validate-layout"), (tgt.srcinfo, "source-info"), (tgt.defines, "defines"), (tgt.np_name, "name-in-no-pipeline-mode")] {
             if on {
                 hist.add(&format!("e2e:opt:{}", name));
             }
@@ -1833,7 +1905,19 @@ pub fn run_prog(p: &Prog, rng: &mut Rng, out: &mut Out, hist: &mut Hist) {
             run_case(tgt, &Mode::Named(pipe.name.clone()), p, out, hist);
         }
         if unknown {
-            run_case(tgt, &Mode::Named("Nope".into()), p, out, hist);
+            // an unknown name; now and then a proper prefix / an extension of an existing name
+            let mut n = "Nope".to_string();
+            if let Some(first) = p.pipes.first() {
+                let c = match rng.below(3) {
+                    0 => format!("{}0", first.name),
+                    1 => first.name[..first.name.len() - 1].to_string(),
+                    _ => n.clone(),
+                };
+                if !c.is_empty() && !p.pipes.iter().any(|q| q.name == c) {
+                    n = c;
+                }
+            }
+            run_case(tgt, &Mode::Named(n), p, out, hist);
         }
         run_case(tgt, &Mode::NoPipeline, p, out, hist);
     }
